@@ -437,6 +437,9 @@ func inlineText(node ast.Node, src []byte) string {
 	for c := node.FirstChild(); c != nil; c = c.NextSibling() {
 		if t, ok := c.(*ast.Text); ok {
 			buf.WriteString(infoString(t.Segment.Value(src)))
+		} else if cs, ok := c.(*ast.CodeSpan); ok {
+			// code span content is literal: no backslash escapes, no character references
+			buf.WriteString(codeSpanContent(cs, src))
 		} else if c.HasChildren() {
 			buf.WriteString(inlineText(c, src))
 		}
